@@ -41,8 +41,9 @@ def addressableFrom : Node → Pos → Bool
     | none => false
     | some c =>
       (k != .map ||
-        (c.key == c.name   -- [KeyIsName]
-          && !c.name.isEmpty && (p.isEmpty || !endsWithBackslash c.name)))
+        (c.key == some c.name   -- [KeyIsName]
+          && !c.name.isEmpty && (p.isEmpty || !endsWithBackslash c.name))
+        || (c.key == none && c.name.isEmpty))   -- an unnamed field: the empty step looks up `None` (05c4adc)
       && addressableFrom c p
 
 def addressable (root : Node) (pos : Pos) : Bool := addressableFrom root pos
@@ -57,7 +58,8 @@ def spellableFrom : Node → Pos → Bool
     match kids[i]? with
     | none => false
     | some c =>
-      (k != .map || (!c.name.isEmpty && (p.isEmpty || !endsWithBackslash c.name)))
+      (k != .map || (!c.name.isEmpty && (p.isEmpty || !endsWithBackslash c.name))
+        || (c.key == none && c.name.isEmpty))     -- an unnamed field is spelled by the empty step
       && spellableFrom c p
 
 def spellable (root : Node) (pos : Pos) : Bool := spellableFrom root pos
